@@ -57,6 +57,21 @@ def r1_compare(chk, fx):
         if kind == "update" and arm is not None:
             check_wiring(chk, n, arm, i)
     chk.floor("C01/R1 compare abstract cases", len(rows), 6)
+    if any((arm or {}).get("collections") for (_, _, arm, _) in rows):
+        # the table was obtained by evaluating compare as a whole on finite maps (one name per case): that every name of either map
+        # is decided is part of that evaluation
+        chk.instance("C01/R1", "compare evaluated on finite abstract maps (one representative name per case): every name of either map is decided", n,
+                     None, holds=True)
+        return
+    # cross-check of the two evaluators on the form both can read
+    try:
+        rows2 = AC.decision_table_collections(fx)
+        same = {(e, i): k for (e, i, _, k) in rows} == {(e, i): k for (e, i, _, k) in rows2} or \
+            all(k == dict(((e2, i2), k2) for (e2, i2, _, k2) in rows2).get((e, i)) or (e, i) == ("absent", "absent") for (e, i, _, k) in rows)
+        chk.instance("C01/R1", "the collection-level evaluation of compare (finite abstract maps) gives the same table", n, None, holds=same,
+                     key="C01/R1 compare evaluators-disagree", detail=None if same else str([(e, i, k) for (e, i, _, k) in rows2]))
+    except F.AnchorLost:
+        pass
     # names = union of both key sets: the iterator the decision closure is applied to derives from keys(self.map) and keys(installed.map)
     from vlib import absint as A
     cname = AC.find_compare(fx)
